@@ -29,6 +29,14 @@ CLAIMS = {
         "the raising paths. A function body that leaves the supported subset is checked by a bounded stand-in (labelled bounded, never counted as proved).",
    note="Trusted: pyvc executor, NumPy models, lazy-sum calculus with its congruence lemma, qr as an uninterpreted kernel, the LQ projection lemma; reals for floats.",
    design="6 (C12)", technique="contract-based deductive verification: AST->VC generation (pyvc) + z3 over structured block indices and lazy sums; bounded concrete stand-in only when the body is unsupported"),
+ "C02": dict(
+   text="Deductive proof from the real source that gen.MSF returns Re(b(phi2,phi1)/b(phi1,phi1)) (non-conjugated form; loop invariant for the mode loop), "
+        "that gen.merge_mode_shapes - under the property's hypothesis that every setup is the global shape restricted to its sensors times a non-zero real factor per "
+        "setup and mode - returns c[0,k]*G in the row order references (first setup's listed order) then each setup's roving channels in ascending order, for symbolic sensor "
+        "counts, reference positions/orders, mode counts and factors (number of setups enumerated: 2, 3), and that merge_results groups algorithms by position, passes the per-setup "
+        "shapes in setup order with the stored reference lists, and reports arithmetic means and population std / mean.",
+   note="Trusted: pyvc executor and NumPy models, lazy-sum calculus, np.delete as complement enumeration; reals for floats; complex shapes need a non-vanishing non-conjugated reference self-product.",
+   design="6 (C02)", technique="contract-based deductive verification: AST->VC generation (pyvc) + z3 (NRA over lazy sums), loop invariants, native replay"),
 }
 NOT_APPLICABLE = {
  "C07": "accuracy tolerance (2.5 % / 15 %) of a floating-point FFT/peak-picking/regression pipeline: no contract over exact reals can state or discharge it (DESIGN.md section 8); its scale-invariance clause is covered under C08",
